@@ -232,7 +232,11 @@ def minimise(chk, explicit, info, findings, max_runs=300, max_s=45.0):
     while progress and budget["left"] > 0 and time.time() < budget["deadline"]:
         progress = False
         for fn in chk.shrinkers():
-            for cand in fn(best):
+            try:
+                cands = fn(best)
+            except Exception:
+                cands = []      # a shrinker that cannot handle this scenario is skipped, never fatal
+            for cand in cands:
                 if budget["left"] <= 0:
                     break
                 if attempt(cand):
